@@ -242,6 +242,8 @@ Definition foreign_ref (srcs scope : list tref) (wheres : option item) : bool :=
           (match wheres with Some w => item_tables w | None => [] end).
 Definition first_is_builder (from : list source) : bool := match from with SrcQ y :: _ => is_builder y | _ => false end.
 
+Definition is_qsel (x : query) : bool := match x with QSel _ _ _ _ _ _ _ _ _ _ _ _ _ _ => true | _ => false end.
+
 Section Open.
 Variable rho : cls -> cls.
 Variable it : kctx -> origin -> list tref -> ctx -> item -> res (list dtok).
@@ -376,6 +378,8 @@ Definition qins_toks (kin : kctx) (og0 : origin) (walias subquery pv : bool) (al
       Ok (head ++ cols ++ T " VALUES (" :: tjoin "),(" rs ++ [T ")"])
   | [], Some y =>
       (* QueryBuilder.get_sql: an INSERT whose SELECT part selects nothing renders as the empty string *)
+      (* the SELECT part of INSERT ... SELECT is always a plain SELECT (one builder in pypika); other shapes are not modelled *)
+      if negb (is_qsel y) then Err "InsertSelectShape" else
       if Nat.eqb (nselects y) 0 then Ok [] else
       s <- qt kk og false false false (qalias y) y ;;
       let body := vparen subquery pv (head ++ cols ++ T " " :: s) in
